@@ -8,7 +8,7 @@ META = {
              'list of self.context. Oracle = per-backend process-model table (serial: caller pid+thread; fork: own '
              'child pid per task, ppid == caller, sees the mutated global; spawn: own child pid, ppid == caller, sees '
              'the import-time global) + context == harness-computed filter of the Lab context + identical storage '
-             'key sets for both contexts + no stored file contains a canary. Distinct by (DAG, backend, workers); '
+             'key sets for both contexts + no stored file contains a canary (a third of the tasks return results that contain task objects - themselves and their dependencies - so task state is part of the stored bytes). Distinct by (DAG, backend, workers); '
              'non-trivial when >= 2 tasks executed and the DAG has a filtered-context task or a dependency.'),
     'assumptions': ['"freshly started interpreter that shares no memory" is observed through a module global '
                     'mutated by the caller after import (a forked child sees the mutation, a spawned one does not)'],
@@ -71,6 +71,10 @@ def _judge(rep, rng, scn, backend):
     from vlab.dagcommon import scn_key, scn_summary
     from vlab.tasks_core import filter_ctx
     keysets = []
+    # a third of the pickle-cached tasks return a result that contains task objects (themselves, their dependencies)
+    srng = __import__('random').Random(scn.get('sched_seed', 0))
+    scn['task_plan'] = {n: {'shape': 'selfref'} for n, t in scn['spec']['tasks'].items()
+                        if t['type'] not in ('NJ', 'NK', 'NSJ') and srng.random() < 0.35}
     for variant in (0, 1):
         can = [f'CANARY-{variant}-{rng.randrange(1 << 40):x}' for _ in range(3)]
         names = list(scn['spec']['tasks'])
